@@ -14,7 +14,15 @@
    one action for upload_full_tree.  Deviations of the code from "remote := tree" are therefore visible to TLC:
    UploadCorrect / UploadNeverFails are proved for the deltas SafeDelta admits and are violated outside (see Unsafe).
 
-   Symlink targets: "s1" is a plain name inside the link's own directory, "s2" leaves the link's directory ("../b"). *)
+   Symlink targets: "s1" is a plain name inside the link's own directory, "s2" leaves the link's directory ("../b").
+
+   Names.  a, b, d and the child name are ABSTRACT: nothing below depends on what they are, only on their string order
+   (a < a/x < b < d).  The real transports take URL-escaped paths, so the real code may well depend on them.  The binding
+   therefore instantiates the names in several ways that keep the order - plain ("a", "b", "d"), with literal escape
+   sequences ("a%20b", "b%", "d%41 x", child "a%2Fc") and with space / '#' / non-ASCII characters - and replays every
+   symlink-free behaviour class under each of them: the projections (taken back to the abstract names) must be the same.
+   Behaviours with symlinks are replayed under the plain names only: upload_symlink hands the unescaped link path to
+   transport.symlink, which this model does not describe (reported separately). *)
 EXTENDS Naturals, Sequences, FiniteSets, SequencesExt, TLC
 
 CONSTANTS MaxEdits,        \* number of Commit / Uncommit actions after the initial commit
